@@ -93,7 +93,8 @@ def run(ctx):
         if s["k"] == "assign" and s["place"]["local"] == 0 and s["rv"]["k"] == "binop":
             rets.append((s["rv"]["op"], mir.const_int(s["rv"]["r"]), mir.const_int(s["rv"]["l"])))
     ctx.inst("C18-agreement", "verdict", rets)
-    if not any((op == "Le" and c == 0) or (op == "Lt" and c == 1) or (op == "Eq" and c == 0) for op, c, _ in rets):
+    # `count == 0` would never submit a text with a surplus `)`; `count <= 0` submits it and lets the reader report it
+    if not any((op == "Le" and c == 0) or (op == "Lt" and c == 1) or (op == "Ge" and l == 0) or (op == "Gt" and l == 1) for op, c, l in rets):
         ctx.report("C18-agreement", "verdict", "the completeness verdict is %s, expected `count <= 0`" % rets, where_of(cbc))
 
     # ------------------------------------------------------------------ C18-buffer
